@@ -67,6 +67,26 @@ DESC = {
     "C09/r2m2": ("LAP.add_sample initialises the priority after the insert index advanced (slot 0 stays uninitialised)", "a LAP-based routine before its buffer wraps; uninitialised memory differing between runs"),
     "C10/r2m1": ("PETS planner bounds built with repeat().reshape(): dimensions mixed over the plan", "two action dimensions with different bounds"),
     "C10/r2m2": ("make_sample_actions caches the jitted sampler keyed on shape / dtype / noise only", "a second sampler in the process for another box of the same shape"),
+    "C11/r2m1": ("train_td7: the learning_starts gate survives only without checkpoints; in checkpoint mode released epochs train during warm-up", "use_checkpoints and an episode ending before learning_starts"),
+    "C11/r2m2": ("DUCBGeneralized.select returns the arm index instead of tasks[arm]", "a task array that is not 0..n-1"),
+    "C12/r2m1": ("sac_exploration_loss clips log pi to [-20, 2]", "peaked policy (log pi > 2), action dimension >= 2"),
+    "C12/r2m2": ("update_ppo re-reads the 'old' log-probabilities in every epoch", "epochs >= 2"),
+    "C13/r2m1": ("SoftmaxPolicy log-softmax stabilised with the batch-wide maximum", "batch >= 2 with rows on very different logit scales"),
+    "C13/r2m2": ("train_nature_dqn allocates epsilon_rolls for total_timesteps - global_step but indexes with the absolute step", "a continued run with global_step > 0"),
+    "C14/r2m1": ("train_q_learning passes `terminated or truncated` as the termination flag of the update", "a truncated step with a non-zero greedy successor value"),
+    "C14/r2m2": ("Dyna-Q planning gathers max Q(s') for all replays before the sweep", "n_planning_steps >= 2 and an earlier replay changing a later successor's row maximum"),
+    "C15/r2m1": ("TD7 _train_step returns early while the buffer holds fewer than batch_size transitions", "use_checkpoints and a window ending before the buffer reaches batch_size"),
+    "C15/r2m2": ("accepted window records the last return, not the window minimum, as best minimum", "long window active, last return above the window minimum, a later return in between"),
+    "C16/r2m1": ("CMA-ES step-size cap applied as exp(2 * min(1.2, .)) on the variance", "several generations moving the mean in one direction (cap active)"),
+    "C16/r2m2": ("cem_update takes every sample with fitness >= the n_elite-th best", "a tie across the elite boundary"),
+    "C17/r2m1": ("base_predict takes member i from an lru_cache'd helper", "base_predict, parameter change, base_predict again on the same object"),
+    "C17/r2m2": ("gaussian_nll clips the log-variance to [-10, 10] inside the precision term", "predicted log-variance outside [-10, 10]"),
+    "C18/r2m1": ("avg_l1_norm divides by mean|x| + eps instead of max(mean|x|, eps)", "mean|x| between 1e-8 and 1e-4"),
+    "C18/r2m2": ("make_two_hot_bins pins the centre edge to 0", "asymmetric exponent range"),
+    "C19/r2m1": ("prioritized buffers call reset_max_priority() in __setstate__", "max priority above the current maximum of the stored priorities at save time"),
+    "C19/r2m2": ("Orbax save and restore_checkpoint handle nnx.Param only", "tanh policy head, template with other non-Param variables"),
+    "C20/r2m1": ("OrbaxCheckpointer.save_model saves nnx.Param only", "module with non-Param variables, restore into its full state"),
+    "C20/r2m2": ("LoggerList.record_stat forwards (key, value, step, episode) positionally", "explicit episode / step through a LoggerList"),
     "C20/m2": ("record_stat: `episode = episode or counter`", "explicit episode=0 / step=0 after the counters moved"),
 }
 
